@@ -104,7 +104,9 @@ class _Ctx:
         return v if ok else None
 
 
-ABSENT_KINDS = ("k9", "child")  # a kind no node has; the tree's DEFAULT_CHILD_TYPE (also absent)
+# kinds no node has: an unrelated one, the tree's DEFAULT_CHILD_TYPE, and names that *contain* / *are contained in*
+# a present kind (kinds are compared as whole strings, not by substring or prefix)
+ABSENT_KINDS = ("k9", "child", "xk1y", "k")
 
 
 def check_tree(prop, tree, nodes, wit, *, spec=None, res: Result | None = None, tag="") -> list[Violation]:
@@ -300,7 +302,7 @@ def run(prop: str, tier: str, only=None) -> Result:
         + ("" if quick else "; all typed forests with <= 3 nodes x {a,b,c} x kinds {k1,k2,k3}")
         + f"; one parent (tree or node) with 1..{flat_w} children, every kind pattern over {{{','.join(flat_kinds)}}}; "
         f"{n_rand} seeded random typed trees with 4..{max_rand} nodes and 3 kinds (VERIF_SEED={seed()}); every node and the system root, "
-        "every present kind + absent kinds + ANY_KIND, any_kind off/on/default, add_self off/on"
+        "every present kind + absent kinds (incl. super- and substrings of present kinds) + ANY_KIND, any_kind off/on/default, add_self off/on"
     )
     return total
 
